@@ -4,7 +4,7 @@
    schemas / lists / strings (induction where the code loops), none is a computation on samples.
    The tactics do not mention generated variable names. *)
 From Coq Require Import String Ascii List ZArith Bool NArith Lia.
-From PV Require Import Model_scsv Model_scsv_frame Model_scsv_py Gen_scsv.
+From PV Require Import Model_scsv Model_scsv_frame Model_scsv_header Model_scsv_py Gen_scsv.
 Import ListNotations.
 Open Scope string_scope.
 
@@ -209,6 +209,16 @@ Proof. intros a b. cbn [py_gt int_op2 as_int]. rewrite ltb_of_nat. reflexivity. 
 Lemma py_eq_nat : forall O a b, py_eq O (PInt (Z.of_nat a)) (PInt (Z.of_nat b)) = Ok (PBool (Nat.eqb a b)).
 Proof. intros O a b. change (py_eq O (PInt (Z.of_nat a)) (PInt (Z.of_nat b))) with (Ok (A:=pyval) (PBool (Z.eqb (Z.of_nat a) (Z.of_nat b)))).
   rewrite eqb_of_nat. reflexivity. Qed.
+
+Lemma string_of_list_ascii_app : forall a b, string_of_list_ascii (a ++ b) = (string_of_list_ascii a ++ string_of_list_ascii b)%string.
+Proof. induction a as [|x a IH]; intro b; [reflexivity|]. cbn [app string_of_list_ascii append]. rewrite IH. reflexivity. Qed.
+
+Lemma replace_apostrophe : forall s,
+  replace_char "'"%char "''" s = string_of_list_ascii (esc ascii Ascii.eqb apostrophe (list_ascii_of_string s)).
+Proof.
+  induction s as [|x r IH]; [reflexivity|]. cbn [replace_char list_ascii_of_string esc]. unfold apostrophe in *.
+  destruct (Ascii.eqb x "'"%char); cbn [string_of_list_ascii append]; rewrite IH; reflexivity.
+Qed.
 
 (* ---------------------------------------------------------------- facts about the primitives *)
 Section Inst.
@@ -662,6 +672,17 @@ Proof.
   - destruct st as [| | | | | | out | | | |]; try contradiction. cbn [app] in L.
     unfold abs_schema. cbn [dget String.eqb Ascii.eqb Bool.eqb opt_str]. rewrite L. reflexivity.
   - exact L.
+Qed.
+
+(* ---------------------------------------------------------------- _yaml_quote
+   for every string: the generated function is the quoting function the header theorems (exact invertibility for
+   every string / alphabet / code point) are about *)
+Theorem gen_yaml_quote_eq : forall s, gen__yaml_quote O (PStr s) = Ok (PStr (yaml_quote s)).
+Proof.
+  intro s. unfold gen__yaml_quote, yaml_quote, quote.
+  change (py_call1 O (PType TStr) (PStr s)) with (Ok (A:=pyval) (PStr s)).
+  cbn [bind py_replace one_char py_add run_fn]. rewrite replace_apostrophe.
+  cbn [string_of_list_ascii]. rewrite string_of_list_ascii_app. reflexivity.
 Qed.
 
 End Inst.
